@@ -161,6 +161,9 @@ def prefixSpec : Kind → Option Bool
 
 /-- generated obligation: the prefix-operator cases of `parseExpressionWithPrecedenceUnary`, with the operand parser each names, are C11's -/
 theorem prefix_operand_table_is_C11 : Kind.all.all (fun k => Facts.prefixOperand k == prefixSpec k) = true := by decide
+/-- generated obligation: no operator of C11 carries an extra guard in front of its operand parser - only GNU's label address `&&` does (its
+operand must be an identifier since the parser was repaired), which the model keeps as lenient as the operand parser -/
+theorem only_label_address_is_guarded : Facts.prefixGuarded.all (fun k => k == .AmpersandAmpersandToken) = true := by decide
 /-- … and the postfix loop continues on `++ --` (6.5.2p1), `[`, `(`, `.` and `->` only -/
 theorem postfix_tokens_are_C11 :
     Facts.postfixIncDec = [.PlusPlusToken, .MinusMinusToken] ∧ Facts.memberAccess = [.DotToken, .ArrowToken] ∧
